@@ -511,7 +511,8 @@ inductive Entry
   | transact | transactCtx | cachedTransact | cachedTransactCtx | nested | nestedCtx
   deriving DecidableEq, Repr
 
-/-- what each entry point does, read off its wiring (Tie: tie_wire_*): the ctx-less ones call `TransactCtx` with
+/-- what each entry point does, read off its wiring (Tie: tie_wire_*, and semantically tie_forwarding_sem: the
+typed argument lists of every hop composed for all caller contexts and bodies): the ctx-less ones call `TransactCtx` with
 `context.Background()` — never done, nothing to cancel under the body —, the cached ones delegate unchanged, the
 nested ones return `errCantNestTx` without touching anything. -/
 def runEntry (ep : Entry) (env : Env) (f : Faults) (b : Body) : Result :=
